@@ -2,6 +2,7 @@
 From Coq Require Import Reals Lra Lia List String ZArith Arith.
 From Interval Require Import Tactic.
 From SpdVerif Require Import Base.Rx Base.PolingBase Gen.Poling Gen.Sweep Spec.SweepPaths Model.Sweep Proofs.C18_angles.
+From SpdVerif Require Base.GridOps Gen.Grid.
 Import ListNotations.
 Local Open Scope R_scope.
 
@@ -59,14 +60,15 @@ Ltac case_poling setter :=
 
 Ltac case_poling_off setter := unfold setter; reflexivity.
 
-(* the k-th grid point of a sweep *)
+(* the k-th grid point of a sweep: the generated Steps2D::value (Gen/Grid.v) at a closed index *)
 Ltac case_grid :=
-  unfold steps2d_value; cbn [fst snd];
-  repeat match goal with |- context [lt_dec ?a ?b] => destruct (lt_dec a b); try (exfalso; lia) end;
+  unfold Gen.Grid.steps2d_value;
+  cbn [fst snd GridOps.o_add GridOps.o_sub GridOps.o_mul GridOps.o_div GridOps.o_nat GridOps.o_z GridOps.Rops];
+  repeat match goal with
+  | |- context [Nat.ltb ?a ?b] => let r := eval vm_compute in (Nat.ltb a b) in change (Nat.ltb a b) with r; cbv iota
+  end;
   rewrite ?INR_IZR_INZ;
   repeat match goal with |- context [Z.of_nat ?n] =>
-    lazymatch n with
-    | _ => let r := eval vm_compute in (Z.of_nat n) in change (Z.of_nat n) with r
-    end
+    let r := eval vm_compute in (Z.of_nat n) in change (Z.of_nat n) with r
   end;
   split; interval with (i_prec 80).
